@@ -24,8 +24,40 @@ func (g *vfGccTarget) SetRate(bps int) { g.p.SetTargetBitrate(bps) }
 
 func (g *vfGccTarget) Close() error { return g.p.Close() }
 
+// vfBweTarget: the pacers as gcc.SendSideBWE uses them (AddStream(info, writer) wraps the stream's next writer with the
+// feedback adapter's OnSent and registers it with the pacer; the returned writer is the pacer).
+type vfBweTarget struct {
+	sc  *vfPcScript
+	bwe *SendSideBWE
+}
+
+func (b *vfBweTarget) Bind(s uint32, w interceptor.RTPWriter) interceptor.RTPWriter {
+	info := &interceptor.StreamInfo{SSRC: s}
+	if id := b.sc.vfPcTwccID(s); id != 0 {
+		info.RTPHeaderExtensions = []interceptor.RTPHeaderExtension{{URI: transportCCURI, ID: id}}
+	}
+
+	return b.bwe.AddStream(info, w)
+}
+
+func (b *vfBweTarget) SetRate(bps int) { b.bwe.pacer.SetTargetBitrate(bps) }
+
+func (b *vfBweTarget) Close() error { return b.bwe.Close() }
+
 func TestVerifGccPacerExec(t *testing.T) {
 	vfPcMain(t, func(sc *vfPcScript) (vfPcTarget, error) {
+		if sc.Kind == "bwe-leaky" || sc.Kind == "bwe-noop" {
+			opts := []Option{SendSideBWEInitialBitrate(sc.Rate)}
+			if sc.Kind == "bwe-noop" {
+				opts = append(opts, SendSideBWEPacer(NewNoOpPacer()))
+			}
+			bwe, err := NewSendSideBWE(opts...)
+			if err != nil {
+				return nil, err
+			}
+
+			return &vfBweTarget{sc: sc, bwe: bwe}, nil
+		}
 		var p Pacer
 		if sc.Kind == "noop" {
 			p = NewNoOpPacer()
